@@ -2,12 +2,19 @@
 //! The specification's satisfaction table (Lean, `Spec/SatTable.lean`) decides
 //! "satisfiable"; its witnesses are themselves executed (`C tablecheck`) so that the table is
 //! validated on every case it judges.
-use crate::ast::{self, CtxK, Node};
+//! Descriptor level (`run_desc`): `Descriptor::get_satisfaction{,_mall}` and
+//! `Descriptor::into_plan{,_mall}` on real transactions, judged by the table applied per leaf /
+//! key path (`J dcomplete`, `J dplan`); the taproot leaf loop is compared with its model
+//! (`C trbest`).
+use crate::ast::{self, CtxK, Node, HK};
 use crate::common::{Out, Rng};
+use crate::desc::{self, DAssets, Wrap};
 use crate::msops::{self, rel_canon, Assets};
 use crate::with_ctx;
+use miniscript::bitcoin::PublicKey;
+use miniscript::descriptor::TapTree;
 use miniscript::miniscript::types::Base;
-use miniscript::{Miniscript, ScriptContext};
+use miniscript::{Descriptor, Miniscript, ScriptContext, Tap};
 
 /// BIP65: does a transaction with (nLockTime = lt, non-final sequence) satisfy `after(n)`?
 fn after_ok(lt: u32, n: u32) -> bool { (lt < 500_000_000) == (n < 500_000_000) && n <= lt }
@@ -31,7 +38,8 @@ fn tx_values(node: &Node) -> Vec<(u32, u32)> {
     v
 }
 
-fn assets_for(node: &Node, lt: u32, sq: u32, keymask: u32, premask: u32) -> Assets {
+/// `rawmask`: two bits per raw pkh atom (bit 0: public key known, bit 1: signature available)
+fn assets_for(node: &Node, lt: u32, sq: u32, keymask: u32, premask: u32, rawmask: u32) -> Assets {
     let full = Assets::full(node);
     let mut a = Assets::default();
     for (i, k) in full.ecdsa.iter().enumerate() { if keymask >> i & 1 == 1 { a.ecdsa.insert(*k); } }
@@ -43,6 +51,10 @@ fn assets_for(node: &Node, lt: u32, sq: u32, keymask: u32, premask: u32) -> Asse
     node.locks(&mut af, &mut ol);
     for n in af { if after_ok(lt, n) { a.after.insert(n); } }
     for n in ol { if older_ok(sq, n) { a.older.insert(rel_canon(n)); } }
+    for (i, h) in full.rawpk.iter().enumerate() {
+        if rawmask >> (2 * i) & 1 == 1 { a.rawpk.insert(*h); }
+        if rawmask >> (2 * i + 1) & 1 == 1 { a.rawsig.insert(*h); }
+    }
     a
 }
 
@@ -107,6 +119,297 @@ fn twin_corpus(ctx: CtxK) -> Vec<Node> {
     v
 }
 
+
+/// raw pkh fragments (only reachable by decoding a script; refused by the sanity rules, so only
+/// the malleable-mode half of `J complete` applies), uncompressed keys, every hash kind
+fn extra_corpus(ctx: CtxK) -> Vec<Node> {
+    use Node::*;
+    let tap = ctx == CtxK::Tap;
+    let k = |i: u32| if tap { 200 + i } else { i };
+    let bx = |n: Node| Box::new(n);
+    let pk = |i: u32| Check(bx(PkK(k(i))));
+    let raw = |i: u32| Check(bx(RawPkH(k(i))));
+    let mut v = vec![
+        raw(0),
+        OrD(bx(raw(0)), bx(pk(1))),
+        OrD(bx(pk(1)), bx(raw(0))),
+        AndV(bx(Verify(bx(raw(0)))), bx(pk(1))),
+        OrB(bx(raw(0)), bx(Alt(bx(raw(1))))),
+        OrI(bx(raw(0)), bx(raw(1))),
+        AndOr(bx(raw(0)), bx(pk(1)), bx(raw(2))),
+        Thresh(1, vec![raw(0), Alt(bx(pk(1))), Alt(bx(raw(2)))]),
+        Thresh(2, vec![raw(0), Alt(bx(pk(1))), Alt(bx(raw(2)))]),
+        AndV(bx(Verify(bx(raw(0)))), bx(Older(10))),
+        // every hash kind, alone and next to a signature
+        AndV(bx(Verify(bx(pk(0)))), bx(Hash(HK::Hash256, 2))),
+        OrD(bx(pk(0)), bx(AndV(bx(Verify(bx(pk(1)))), bx(Hash(HK::Ripemd160, 3))))),
+        AndV(bx(Verify(bx(pk(0)))), bx(Hash(HK::Hash160, 1))),
+        AndB(bx(Hash(HK::Hash256, 2)), bx(Alt(bx(Hash(HK::Ripemd160, 3))))),
+        OrI(bx(AndV(bx(Verify(bx(pk(0)))), bx(Hash(HK::Sha256, 0)))), bx(AndV(bx(Verify(bx(pk(1)))), bx(Hash(HK::Hash256, 2))))),
+    ];
+    if matches!(ctx, CtxK::Bare | CtxK::Legacy) {
+        // uncompressed keys (ids 100..): 66-byte pushes, 65-byte keys in pk_h
+        let upk = |i: u32| Check(bx(PkK(100 + i)));
+        let upkh = |i: u32| Check(bx(PkH(100 + i)));
+        v.push(upk(0));
+        v.push(upkh(1));
+        v.push(OrD(bx(upk(0)), bx(pk(2))));
+        v.push(OrI(bx(upkh(1)), bx(pk(2))));
+        v.push(Multi(1, vec![100, 2]));
+        v.push(SortedMulti(2, vec![3, 101, 2]));
+        v.push(AndOr(bx(upk(0)), bx(upkh(1)), bx(pk(2))));
+        v.push(Thresh(2, vec![upk(0), Swap(bx(pk(2))), Swap(bx(upk(3)))]));
+    }
+    v
+}
+
+/* ---------------------------------------------------------------- descriptor level */
+
+#[derive(Clone, Debug)]
+enum Shape { Leaf(usize), Br(Box<Shape>, Box<Shape>) }
+
+/// `{0,{1,2}}` → tree; leaf indices are listed left to right
+fn parse_shape(s: &str) -> Shape {
+    fn go(c: &[u8], i: &mut usize) -> Shape {
+        if c[*i] == b'{' {
+            *i += 1;
+            let l = go(c, i);
+            assert_eq!(c[*i], b','); *i += 1;
+            let r = go(c, i);
+            assert_eq!(c[*i], b'}'); *i += 1;
+            Shape::Br(Box::new(l), Box::new(r))
+        } else {
+            let st = *i;
+            while *i < c.len() && c[*i].is_ascii_digit() { *i += 1; }
+            Shape::Leaf(std::str::from_utf8(&c[st..*i]).unwrap().parse().unwrap())
+        }
+    }
+    let mut i = 0;
+    go(s.as_bytes(), &mut i)
+}
+fn shape_leaves(s: &Shape) -> usize { match s { Shape::Leaf(_) => 1, Shape::Br(l, r) => shape_leaves(l) + shape_leaves(r) } }
+
+fn build_tree(s: &Shape, leaves: &[Node]) -> Option<TapTree<PublicKey>> {
+    match s {
+        Shape::Leaf(i) => {
+            let ms: Miniscript<PublicKey, Tap> = ast::to_ms(&leaves[*i]).ok()?;
+            Some(TapTree::leaf(std::sync::Arc::new(ms)))
+        }
+        Shape::Br(l, r) => TapTree::combine(build_tree(l, leaves)?, build_tree(r, leaves)?).ok(),
+    }
+}
+
+/// one descriptor under test, with what the Lean judge needs to know about it
+struct DCase {
+    desc: Descriptor<PublicKey>,
+    wrap: &'static str,
+    internal: Option<u32>,
+    shape: String,
+    /// the scripts the table is applied to (for pkh-like outputs: `c:pk_h(K)`)
+    leaves: Vec<Node>,
+}
+
+fn wrap_name(w: Wrap) -> &'static str {
+    match w { Wrap::Wsh => "wsh", Wrap::ShWsh => "shwsh", Wrap::Sh => "sh", Wrap::Bare => "bare", Wrap::Pkh => "pkh", Wrap::Wpkh => "wpkh", Wrap::ShWpkh => "shwpkh" }
+}
+
+fn dcase_ms(w: Wrap, node: &Node) -> Option<DCase> {
+    Some(DCase { desc: desc::build_desc(w, node, 0)?, wrap: wrap_name(w), internal: None, shape: "0".into(), leaves: vec![node.clone()] })
+}
+fn dcase_key(w: Wrap, key: u32) -> Option<DCase> {
+    let leaf = Node::Check(Box::new(Node::PkH(key)));
+    Some(DCase { desc: desc::build_desc(w, &leaf, key)?, wrap: wrap_name(w), internal: None, shape: "0".into(), leaves: vec![leaf] })
+}
+fn dcase_tr(internal: u32, shape: &str, leaves: &[Node]) -> Option<DCase> {
+    let tree = if shape == "-" { None } else {
+        let sh = parse_shape(shape);
+        assert_eq!(shape_leaves(&sh), leaves.len());
+        Some(build_tree(&sh, leaves)?)
+    };
+    let desc = Descriptor::new_tr(ast::full_key(internal), tree).ok()?;
+    Some(DCase { desc, wrap: "tr", internal: Some(internal), shape: shape.into(), leaves: leaves.to_vec() })
+}
+
+/// the assets as the Lean table sees them: key atoms as they are written in the scripts
+fn lean_assets(c: &DCase, da: &DAssets) -> Assets {
+    let mut a = Assets::default();
+    for n in &c.leaves {
+        let mut ks = vec![];
+        n.keys(&mut ks);
+        for k in ks {
+            if da.keys.contains(&(k % 100)) {
+                if k >= 200 { a.schnorr.insert(k, if da.schnorr_all { 65 } else { 64 }); } else { a.ecdsa.insert(k); }
+            }
+        }
+    }
+    a.pre = da.pre.clone();
+    a.after = da.after.clone();
+    a.older = da.older.clone();
+    a
+}
+
+fn catch<T>(f: impl FnOnce() -> T) -> Option<T> { std::panic::catch_unwind(std::panic::AssertUnwindSafe(f)).ok() }
+
+/// all descriptor-level checks for one (descriptor, assets)
+fn dcheck(out: &mut Out, c: &DCase, da: &DAssets, judge_spends: bool) {
+    let sn = |b: bool| if b { "some" } else { "none" };
+    let leaves_w = if c.leaves.is_empty() { "-".to_string() } else { c.leaves.iter().map(|n| n.wire()).collect::<Vec<_>>().join(";") };
+    let head = format!("{} {} {} {} {} {}", c.wrap, c.internal.map(|i| i.to_string()).unwrap_or("-".into()),
+        c.shape, leaves_w, lean_assets(c, da).wire(), da.tapkey as u8);
+    let leaf_scripts: Vec<Vec<u8>> = if c.wrap == "tr" {
+        c.leaves.iter().map(|n| ast::to_ms::<PublicKey, Tap>(n).map(|m| m.encode().into_bytes()).unwrap_or_default()).collect()
+    } else { vec![] };
+    let mut res = [false, false];
+    for (mi, mall) in [true, false].into_iter().enumerate() {
+        let mode = if mall { "mall" } else { "nonmall" };
+        let sat = desc::tx_sat_for(&c.desc, da);
+        let r = catch(|| if mall { c.desc.get_satisfaction_mall(&sat) } else { c.desc.get_satisfaction(&sat) });
+        let r = match r {
+            None => { out.line(&format!("J nopanic get_satisfaction {} {} PANIC", mode, head), "ok"); return; }
+            Some(r) => r.ok(),
+        };
+        res[mi] = r.is_some();
+        if c.wrap == "tr" {
+            // which spend the leaf loop picked, read off the produced witness
+            let choice = match &r {
+                None => "none".to_string(),
+                Some((w, _)) if w.len() == 1 => "key".to_string(),
+                Some((w, _)) => match leaf_scripts.iter().position(|s| *s == w[w.len() - 2]) { Some(i) => format!("leaf:{}", i), None => "leaf:?".to_string() },
+            };
+            out.line(&format!("C trbest {} {} {} {} {} {}", mode, c.internal.unwrap(), c.shape, leaves_w, lean_assets(c, da).wire(), da.tapkey as u8), &choice);
+        }
+        if let (Some((w, ss)), true) = (&r, judge_spends) {
+            desc::judge_spend(out, &format!("{} {} {}", c.desc, mode, da.wire()), &sat, ss, w);
+        }
+        // Descriptor::into_plan{,_mall}: Err(self) only when unsatisfiable, and Err carries the original
+        let sat2 = desc::tx_sat_for(&c.desc, da);
+        let orig = c.desc.clone();
+        let p = catch(|| if mall { orig.clone().into_plan_mall(&sat2) } else { orig.clone().into_plan(&sat2) });
+        match p {
+            None => { out.line(&format!("J nopanic into_plan {} {} PANIC", mode, head), "ok"); }
+            Some(p) => {
+                let v = match p { Ok(_) => "ok", Err(d) => if d == orig { "errsame" } else { "errdiff" } };
+                out.line(&format!("J dplan {} {} {}", head, mode, v), "ok");
+                out.count(&format!("dplan {} {} {}", c.wrap, mode, v));
+            }
+        }
+    }
+    out.line(&format!("J dcomplete {} {} {}", head, sn(res[0]), sn(res[1])), "ok");
+    out.count(&format!("dverdict {} mall={} nonmall={}", c.wrap, sn(res[0]), sn(res[1])));
+}
+
+/// asset sets for a descriptor: subsets of the keys x {all, no} preimages x {all, no} locks x
+/// key-path signature
+fn dassets_for(c: &DCase, thorough: bool, rng: &mut Rng) -> Vec<DAssets> {
+    let refs: Vec<&Node> = c.leaves.iter().collect();
+    let full = DAssets::full(&refs);
+    let keys: Vec<u32> = full.keys.iter().cloned().collect();
+    let nk = keys.len().min(7);
+    let mut v = vec![];
+    for km in 0..(1u32 << nk) {
+        let pc = km.count_ones() as usize;
+        // quick tier: none, singletons, all-but-one, all, and a random third of the rest
+        if !thorough && !(pc <= 1 || pc + 1 >= nk || rng.below(3) == 0) { continue; }
+        let mut a = DAssets { pre: full.pre.clone(), after: full.after.clone(), older: full.older.clone(), ..Default::default() };
+        for (i, k) in keys.iter().enumerate() { if km >> i & 1 == 1 { a.keys.insert(*k); } }
+        a.schnorr_all = km % 2 == 1;
+        v.push(a.clone());
+        if !full.pre.is_empty() && (thorough || pc + 1 >= nk || rng.below(4) == 0) { let mut b = a.clone(); b.pre.clear(); v.push(b); }
+        if !(full.after.is_empty() && full.older.is_empty()) && (thorough || pc + 1 >= nk || rng.below(4) == 0) {
+            let mut b = a.clone(); b.after.clear(); b.older.clear(); v.push(b);
+        }
+        if c.wrap == "tr" && (thorough || pc == 0 || rng.below(4) == 0) { let mut b = a.clone(); b.tapkey = true; v.push(b); }
+    }
+    v
+}
+
+const SHAPES: [&str; 11] = ["-", "0", "{0,1}", "{{0,1},2}", "{0,{1,2}}", "{{0,1},{2,3}}", "{0,{1,{2,3}}}",
+    "{{{0,1},2},3}", "{{0,{1,2}},3}", "{0,{{1,2},3}}", "{{0,1},{2,{3,4}}}"];
+
+fn run_desc(out: &mut Out, thorough: bool, rng: &mut Rng) {
+    use Node::*;
+    let bx = |n: Node| Box::new(n);
+    // ---- miniscript-carrying outputs and key outputs
+    let pk = |i: u32| Check(bx(PkK(i)));
+    let pkh = |i: u32| Check(bx(PkH(i)));
+    let scripts: Vec<Node> = vec![
+        pk(0),
+        pkh(1),
+        OrD(bx(pk(0)), bx(pk(1))),
+        AndV(bx(Verify(bx(pk(0)))), bx(Older(10))),
+        Multi(2, vec![0, 1, 2]),
+        SortedMulti(2, vec![9, 8, 1]),
+        AndOr(bx(pk(0)), bx(Older(10)), bx(pk(1))),
+        Thresh(2, vec![pk(0), Swap(bx(pk(1))), Swap(bx(pk(2)))]),
+        OrI(bx(AndV(bx(Verify(bx(pk(0)))), bx(Hash(HK::Sha256, 0)))), bx(pk(1))),
+        OrD(bx(Multi(1, vec![0, 1])), bx(AndV(bx(Verify(bx(pk(2)))), bx(Hash(HK::Hash256, 2))))),
+        AndV(bx(Verify(bx(pk(0)))), bx(After(100))),
+        OrD(bx(NonZero(bx(AndV(bx(Verify(bx(pk(0)))), bx(pk(2)))))), bx(pk(1))),
+        AndV(bx(Verify(bx(Hash(HK::Ripemd160, 3)))), bx(Older(10))),
+        // uncompressed keys (sh / bare only)
+        pk(100),
+        OrD(bx(pk(100)), bx(pkh(101))),
+        Multi(1, vec![100, 2]),
+    ];
+    let mut cases: Vec<DCase> = vec![];
+    for w in [Wrap::Wsh, Wrap::ShWsh, Wrap::Sh, Wrap::Bare] {
+        for n in &scripts { match dcase_ms(w, n) { Some(c) => cases.push(c), None => out.count(&format!("desc not built {}", wrap_name(w))) } }
+    }
+    for (w, ks) in [(Wrap::Pkh, vec![0u32, 100]), (Wrap::Wpkh, vec![1]), (Wrap::ShWpkh, vec![2])] {
+        for k in ks { match dcase_key(w, k) { Some(c) => cases.push(c), None => out.count(&format!("desc not built {}", wrap_name(w))) } }
+    }
+    // ---- taproot: every shape x several leaf assignments; leaf keys 200+k, internal key 9
+    let tpk = |i: u32| Check(bx(PkK(200 + i)));
+    let pool = |i: u32| -> Vec<Node> {
+        // leaf kinds over keys starting at i (disjoint ranges keep exactly one leaf satisfiable per key)
+        vec![
+            tpk(i),
+            AndV(bx(Verify(bx(tpk(i)))), bx(Older(10))),
+            MultiA(2, vec![200 + i, 200 + (i + 1) % 8]),
+            OrD(bx(tpk(i)), bx(AndV(bx(Verify(bx(tpk((i + 1) % 8)))), bx(Hash(HK::Sha256, 0))))),
+            AndV(bx(Verify(bx(tpk(i)))), bx(After(100))),
+            OrD(bx(NonZero(bx(AndV(bx(Verify(bx(tpk(i)))), bx(tpk((i + 1) % 8)))))), bx(tpk((i + 2) % 8))),
+            Thresh(2, vec![tpk(i), Swap(bx(tpk((i + 1) % 8))), Swap(bx(tpk((i + 2) % 8)))]),
+            AndV(bx(Verify(bx(tpk(i)))), bx(Hash(HK::Hash160, 1))),
+            OrI(bx(tpk(i)), bx(AndV(bx(Verify(bx(tpk((i + 1) % 8)))), bx(Older(10))))),
+        ]
+    };
+    for shape in SHAPES {
+        let n = if shape == "-" { 0 } else { shape_leaves(&parse_shape(shape)) };
+        // (a) one plain key per leaf: equal stacks, sizes differ by depth only (ties: later leaf)
+        let plain: Vec<Node> = (0..n as u32).map(tpk).collect();
+        // (b),(c) mixed leaf kinds, rotated through the pool
+        let mut assigns = vec![plain];
+        if n > 0 {
+            for rot in 0..(if thorough { 4 } else { 2 }) {
+                assigns.push((0..n).map(|j| { let p = pool((j as u32 * 2) % 8); p[(j * 2 + rot * 3 + 1) % p.len()].clone() }).collect());
+            }
+            // the satisfiable leaf is the LAST / FIRST one only: reversed pool order
+            assigns.push((0..n).map(|j| { let p = pool(((n - 1 - j) as u32) % 8); p[(j + 3) % p.len()].clone() }).collect());
+        }
+        for leaves in assigns {
+            // leaves must be pairwise distinct scripts (the produced witness identifies the leaf)
+            let mut ws: Vec<String> = leaves.iter().map(|l| l.wire()).collect();
+            ws.sort(); ws.dedup();
+            if ws.len() != leaves.len() { out.count("tr assignment with repeated leaf skipped"); continue; }
+            match dcase_tr(9, shape, &leaves) { Some(c) => cases.push(c), None => out.count("desc not built tr") }
+            if n == 0 { break; }
+        }
+    }
+    let mut n_cases = 0u64;
+    for c in &cases {
+        out.count(&format!("descriptor {}", c.wrap));
+        for (i, da) in dassets_for(c, thorough, rng).iter().enumerate() {
+            n_cases += 1;
+            // every produced spend of a taproot output or with an uncompressed key is also executed
+            // by the Lean Script semantics; of the others every fourth (C01 covers them)
+            let unc = c.leaves.iter().any(|n| { let mut ks = vec![]; n.keys(&mut ks); ks.iter().any(|k| (100..200).contains(k)) });
+            dcheck(out, c, da, c.wrap == "tr" || unc || thorough || i % 4 == 0);
+        }
+    }
+    out.note("descriptor_cases", n_cases.to_string());
+}
+
 pub fn run(out: &mut Out, thorough: bool, seed: u64) {
     let mut rng = Rng(seed ^ 0xC02);
     ast::emit_defs(out);
@@ -142,6 +445,8 @@ pub fn run(out: &mut Out, thorough: bool, seed: u64) {
         // alternative-forming combinator, with every subset of the signatures - the cases in
         // which the non-malleable chooser has two available candidates and must tell which of
         // them carry a signature
+        // raw pkh fragments, uncompressed keys (Bare / Legacy), all four hash kinds
+        nodes.extend(extra_corpus(ctx));
         let n_plain = nodes.len();
         nodes.extend(twin_corpus(ctx));
         for (idx, node) in nodes.into_iter().enumerate() {
@@ -151,19 +456,24 @@ pub fn run(out: &mut Out, thorough: bool, seed: u64) {
             let full = Assets::full(&node);
             let nk = (full.ecdsa.len() + full.schnorr.len()).min(if twin { 7 } else { 4 }) as u32;
             let np = full.pre.len().min(3) as u32;
+            let nr = full.rawpk.len().min(3) as u32;
             let mut txs = tx_values(&node);
             if txs.len() > 4 && !thorough { txs.truncate(4); }
             for (lt, sq) in txs {
                 for km in 0..(1u32 << nk) {
                     for pm in 0..(1u32 << np) {
-                        if !thorough && !twin && (km.count_ones() + pm.count_ones()) + 2 < nk + np && rng.below(3) != 0 { continue; }
-                        let a = assets_for(&node, lt, sq, km, pm);
-                        with_ctx!(ctx, one(out, ctx, &node, lt, sq, &a));
+                        if !thorough && !twin && nr == 0 && (km.count_ones() + pm.count_ones()) + 2 < nk + np && rng.below(3) != 0 { continue; }
+                        // raw pkh atoms: every combination of (key known, signature available)
+                        for rm in 0..(1u32 << (2 * nr)) {
+                            let a = assets_for(&node, lt, sq, km, pm, rm);
+                            with_ctx!(ctx, one(out, ctx, &node, lt, sq, &a));
+                        }
                     }
                 }
             }
         }
     }
+    run_desc(out, thorough, &mut rng);
     out.note("distinct_nontrivial", n_frag.to_string());
-    out.note("domain", "B-typed fragments (enumerated depth 3/4, random, corpus with j: wrappers) x concrete (nLockTime,nSequence) on both sides of every lock x subsets of keys and preimages".into());
+    out.note("domain", "B-typed fragments (enumerated depth 3/4, random, corpora: j: wrappers, twin branches, raw pkh, uncompressed keys, all hash kinds) x concrete (nLockTime,nSequence) on both sides of every lock x subsets of keys, preimages, raw key/signature switches; descriptors wsh/shwsh/sh/bare/pkh/wpkh/shwpkh and tr over 11 tree shapes x key subsets x preimages/locks/key-path signature with real signatures".into());
 }
